@@ -10,7 +10,7 @@ Everything is derived from the syntax trees:
                     algebraic normal form of the condition with role atoms (xi, gi, fi, xj, gj, fj, xs, fs, ...).
 """
 import ast
-from .model import (AnalysisError, src, call_name, get_arg, params_of, dotted, loc, is_const, norm_stmt, iter_base, clone)
+from .model import (AnalysisError, ClassInfo, src, call_name, get_arg, params_of, dotted, loc, is_const, norm_stmt, iter_base, clone)
 from .nf import (Evaluator, Rat, PointV, ExprV, ConsV, TupleV, Opaque, SortError, to_rat)
 from . import flow
 
@@ -401,8 +401,21 @@ class CondEval(Evaluator):
                 if f.attr in b.methods:
                     target = b.methods[f.attr]
                     break
+        call_args = list(node.args)
+        if target is None and isinstance(f, ast.Attribute) and isinstance(f.value, ast.Name) and getattr(self.cls, "module", None) is not None:
+            # OtherClass.callback(...) -- a condition borrowed from another family (static callback, or an ordinary one given `self` explicitly)
+            repo0 = getattr(self.cls, "repo", None) or getattr(self.cls.module, "repo", None)
+            r0 = repo0.resolve_name(self.cls.module, f.value.id) if repo0 is not None else None
+            if isinstance(r0, ClassInfo):
+                t0 = r0.find_method(f.attr)
+                if t0 is not None:
+                    static = any(isinstance(d0, ast.Name) and d0.id == "staticmethod" for d0 in t0.decorator_list)
+                    if static:
+                        target = t0
+                    elif call_args and isinstance(call_args[0], ast.Name) and call_args[0].id == "self":
+                        target, call_args = t0, call_args[1:]
         if target is not None and not node.keywords and getattr(self, "depth", 0) < 3:
-            args = [self.ev(a) for a in node.args]
+            args = [self.ev(a) for a in call_args]
             sub_depth = getattr(self, "depth", 0) + 1
             v, used = _eval_callback_once(self.cls, target, args, self.attr_sorts, depth=sub_depth, want_used=True)
             self.used_attrs |= used
@@ -449,10 +462,17 @@ def _eval_callback_once(cls, fn, bound_args, attr_sorts, depth=0, want_used=Fals
                 return (v, set(ev.used_attrs)) if want_used else v
             elif isinstance(st, ast.Pass):
                 continue
+            elif isinstance(st, ast.If) and not st.orelse and len(st.body) == 1 and isinstance(st.body[0], ast.Return) \
+                    and (st.body[0].value is None or is_const(st.body[0].value, None)):
+                # the callback declines to state its condition for some pairs: it sees components, not samples, so the pairs it drops are
+                # not "a sample with itself" (that case is the generator's business) -- the condition is missing for them
+                e = SortError("the callback returns no condition when `%s`: pairs of distinct samples satisfying this test get no constraint" % src(st.test))
+                e.used_attrs = []
+                raise e
             else:
                 raise AnalysisError("%s.%s: statement %s outside the analysed fragment" % (cls.name, fn.name, norm_stmt(st)))
     except SortError as e:
-        e.used_attrs = sorted(ev.used_attrs)
+        e.used_attrs = sorted(set(getattr(e, "used_attrs", [])) | set(ev.used_attrs)) if not str(e).startswith("the callback returns no condition") else []
         raise
     raise AnalysisError("%s.%s has no return statement on its straight-line path" % (cls.name, fn.name))
 
@@ -714,7 +734,7 @@ def _interp_stmt(repo, cls, fn, st, ctx, res, gens):
             ctx["psd"][tgt.id] = (mname, symd, st)
             return
         if isinstance(st.value, ast.Call) and call_name(st.value) == "len":
-            r = list_role_of(st.value.args[0]) if st.value.args else None
+            r = list_role_of(asub(st.value.args[0], ctx)) if st.value.args else None
             ctx["env"][tgt.id] = Opaque("len", r)
             return
         if isinstance(tgt, ast.Name) and isinstance(st.value, ast.Call) and call_name(st.value) == "get_nb_blocks":
@@ -728,13 +748,14 @@ def _interp_stmt(repo, cls, fn, st, ctx, res, gens):
         if isinstance(tgt, ast.Name) and _aliasable(st.value) and not isinstance(st.value, ast.Constant):
             # a local that only re-reads something (a list attribute, a same-sample test): kept as an alias, substituted at its uses
             sub = asub(st.value, ctx)
-            if list_role_of(sub) is not None or _is_same_sample_test(sub, ctx) is not None or (isinstance(sub, ast.Attribute) and dotted(sub) and dotted(sub).startswith("self.") and isinstance(cls.find_method(sub.attr), ast.FunctionDef)):
+            if list_role_of(sub) is not None or _is_same_sample_test(sub, ctx) is not None or (isinstance(sub, ast.Attribute) and dotted(sub) and dotted(sub).startswith("self.") and isinstance(cls.find_method(sub.attr), ast.FunctionDef)) \
+                    or (isinstance(sub, ast.Attribute) and sub.attr == "get_block" and (dotted(sub) or "").startswith("self.")):
                 ctx["alias"] = dict(ctx["alias"])
                 ctx["alias"][tgt.id] = sub
                 return
         ev = _hook_env_eval(cls, ctx)
         try:
-            val = ev.ev(st.value)
+            val = ev.ev(asub(st.value, ctx) if ctx.get("alias") else st.value)
         except SortError as e:
             if _mentions_sink(st) or isinstance(st.value, ast.Compare):
                 res.emissions.append(Emission(kind="scalar", family=cls.name, via="direct", lists=_lists(ctx), where=where,
